@@ -123,8 +123,12 @@ func genMsgAlg(r *rand.Rand, n int) []string {
 func genMsgNonce(r *rand.Rand, n int) []string {
 	var out []string
 	// histories of library-chosen nonces under one key, every AEAD algorithm
+	hist := 100 * n
+	if hist > 1000000 {
+		hist = 1000000 // the property's quantifier: histories of 10^5..10^6 encryptions under one key
+	}
 	for _, alg := range aeadAlgs {
-		out = append(out, fmt.Sprintf("msg.noncehistory %d %d", alg, 100*n))
+		out = append(out, fmt.Sprintf("msg.noncehistory %d %d", alg, hist))
 	}
 	for i := 0; i < n; i++ {
 		kind := kindsAll[4+r.Intn(2)]
@@ -250,6 +254,15 @@ func genMsgForeign(r *rand.Rand, n int) []string {
 		}
 		payload := randBytes(r, []int{0, 1, 23, 24, 255, 256, 300}[r.Intn(7)])
 		bodyProt := foreignBucket(r, alg, kind != "sign" && r.Intn(4) != 0) // a quarter carry no alg: the bucket may be h'a0' or h''
+		if kind != "sign" && r.Intn(6) == 0 {
+			// the header names another algorithm than the key's, while signature / tag / ciphertext are made with the key
+			// (for MACs and AEADs the other algorithm often shares the key octets): refused whatever the primitive says
+			other := allRegisteredAlgs[r.Intn(len(allRegisteredAlgs))]
+			if sh := sharingAlgs(alg); len(sh) > 0 && r.Intn(3) != 0 {
+				other = sh[r.Intn(len(sh))]
+			}
+			bodyProt = foreignBucket(r, other, true)
+		}
 		unprotKids := []*cnode{}
 		if len(k.kid) > 0 && kind != "sign" {
 			unprotKids = append(unprotKids, &cnode{mt: 0, n: 4}, &cnode{mt: 2, b: k.kid})
